@@ -63,6 +63,15 @@ def refusing_calls():
     for name, setter in ((b'i', 'setint 0 69 5 0'), (b'il', 'setint 0 696c 5 1'), (b'f', 'setfloat 0 66 4000000000000000 0'),
                          (b's', 'setstr 0 73 %s 0' % hx(b'new'))):
         calls.append(('veto', ['validate2 0 %s 0' % hx(name), 'failat 1', setter], 'rc=-1'))
+    # the title that is the empty string exists like any other
+    calls.append(('addtsec-existing-empty', ['parse_buf 0 ' + hx(b't "" { a = 4 }\n'), 'addtsec 0 74 %s' % hx(b'')], 'rc=null'))
+    calls.append(('addtsec-existing-empty', ['addtsec 0 74 %s' % hx(b''), 'setint 0 %s 6 0' % hx(b"t=''|a"), 'addtsec 0 74 %s' % hx(b'')], 'rc=null'))
+    # a PARSE-time validator is armed to refuse: whatever a by-name setter does about it, a setter that reports failure
+    # has changed nothing (want None: the call may succeed)
+    for name, setter in ((b'i', 'setint 0 69 5 0'), (b'il', 'setint 0 696c 5 1'), (b'il', 'setint 0 696c 5 7'), (b'f', 'setfloat 0 66 4000000000000000 0'),
+                         (b's', 'setstr 0 73 %s 0' % hx(b'new')), (b'b', 'setbool 0 62 0 0'), (b'sl', 'setstr 0 736c %s 0' % hx(b'q')),
+                         (b'il', 'addlist 0 696c int 3 4'), (b'il', 'setlist 0 696c int 3 4'), (b'il', 'setmulti 0 696c %s' % hx(b'3'))):
+        calls.append(('parse-validator-armed', ['validate 0 %s 0' % hx(name), 'failat 1', setter], None))
     return calls
 
 
@@ -92,7 +101,10 @@ def oracle(scn, il):
     before, res, after = body[-3], body[-2], body[-1]
     out = []
     kind = scn.meta['kind'].split('@')[0]
-    if scn.meta['want'] + ' ' not in res + ' ':
+    if scn.meta['want'] is None:
+        if re.search(r'rc=(-1|null) ', res + ' ') and before != after:
+            out.append(('changed:' + kind, '%s: `%s` reports failure but changed the tree\n before %s\n after  %s' % (scn.id, scn.lines[-2], before[:900], after[:900])))
+    elif scn.meta['want'] + ' ' not in res + ' ':
         out.append(('not-refused:' + kind, '%s: `%s` was expected to be refused (%s): %s' % (scn.id, scn.lines[-2], scn.meta['want'], res[:150])))
     elif before != after:
         out.append(('changed:' + kind, '%s: refused `%s` changed the tree\n before %s\n after  %s' % (scn.id, scn.lines[-2], before[:900], after[:900])))
